@@ -237,6 +237,10 @@ func TestSim(t *testing.T) {
 		runRaceChild()
 		return
 	}
+	if *fMode == "probechild" {
+		fmt.Print("PROBE-BEGIN\n" + processProbeText() + "PROBE-END\n")
+		return
+	}
 	if *fReplay != "" {
 		runReplay(t)
 		return
@@ -397,6 +401,13 @@ func TestSim(t *testing.T) {
 			if herr := runRapid(env, prop.ID, func(tp *Tape) (*Plan, *Violation) { return prop.World(tp, env) }, addViolation); herr != "" {
 				res.HarnessErr = herr
 			}
+		}
+	}
+	if (prop.ID == "C14" || prop.ID == "C18") && *fMode == "" && len(res.Violations) == 0 {
+		// this process has by now parsed and run thousands of scripts: what it computes for a fixed set of
+		// inputs must be what a process that has done nothing yet computes for them
+		if plan, v := processProbe(env, prop.ID); v != nil {
+			addViolation(plan, v)
 		}
 	}
 	finish()
